@@ -297,7 +297,7 @@ impl Prop for C15 {
         "C15"
     }
     fn rule(&self) -> &'static str {
-        "cases = STUN messages over UDP, both IP versions, source/destination ports incl. 65535: Binding Requests with the RFC 5389 magic cookie and 0..6 well-formed TLVs (CHANGE-REQUEST at most once, USERNAME/SOFTWARE/PRIORITY/unknown types, value lengths 0..64 multiples of 4, plus a variant with > 255 attribute bytes so that the attribute walk is exercised outside the matcher's known shadowing divergence), RFC 3489 requests without cookie in the two published forms, RFC 5389 requests whose attribute values are padded (lengths not multiples of 4); negatives: indication / success / error class and other methods; malformed TLV lists (only: no crash, any STUN reply satisfies the invariants). Over TCP: a flow whose first segment is a magic-cookie request of > 255 attribute bytes (complete, or cut short so that the flow is identified but nothing is answered yet) followed by 1..3 segments holding STUN messages whose type is a Binding Request or any other class / method (incl. methods whose high bits live in the first byte while the second byte reads 0x01): only Binding Requests may get a STUN response, and that response satisfies the same invariants. Oracle: independent STUN decoder: type 0x0101, length field = attribute bytes, 128-bit transaction id echoed, exactly one MAPPED-ADDRESS with family/port/address = IP version/source port/source address, response source port = dport (+1 mod 2^16 with change-port). Requests inside a listed matcher divergence (C10) are excluded and counted. Non-trivial = well-formed requests and answered hostile ones; distinct by message hash and by (attribute-list shape, cookie mode, IP version)."
+        "cases = STUN messages over UDP, both IP versions, source/destination ports incl. 65535: Binding Requests with the RFC 5389 magic cookie and 0..6 well-formed TLVs (CHANGE-REQUEST at most once, USERNAME/SOFTWARE/PRIORITY/unknown types, value lengths 0..64 multiples of 4, plus a variant with > 255 attribute bytes so that the attribute walk is exercised outside the matcher's known shadowing divergence), RFC 3489 requests without cookie in the two published forms, RFC 5389 requests whose attribute values are padded (lengths not multiples of 4); negatives: indication / success / error class and other methods; malformed TLV lists (only: no crash, any STUN reply satisfies the invariants). Over TCP: a flow whose first segment is a magic-cookie request of > 255 attribute bytes (complete, or cut short so that the flow is identified but nothing is answered yet) followed by 1..3 segments holding STUN messages whose type is a Binding Request or any other class / method (incl. methods whose high bits live in the first byte while the second byte reads 0x01): only Binding Requests may get a STUN response, and that response satisfies the same invariants. Oracle: independent STUN decoder: type 0x0101, length field = attribute bytes, 128-bit transaction id echoed, exactly one MAPPED-ADDRESS with family/port/address = IP version/source port/source address, response source port = dport (+1 mod 2^16 with change-port). Requests inside a listed matcher divergence (C10) are excluded and counted. Non-trivial = well-formed requests and answered hostile ones; distinct by message hash and by (attribute-list shape, cookie mode, IP version). Shadow traffic (vf/shadow.rs): three cases in ten process, before every frame of the case, a sibling of that frame whose result is discarded — the same frame again, or one tuple element (source / destination port, source / destination address, source MAC), one payload bit or the payload length changed; TCP conversations are shadowed whole on a sibling flow validated with its own cookie; sound by the statement of C08, cases whose own flows meet a shadow tuple are excluded and counted."
     }
     fn run(&self, ctx: &mut RunCtx) {
         let n = ctx.share(ctx.tier.n(2_500_000, 20_000_000));
